@@ -1,0 +1,16 @@
+//go:build verif
+// +build verif
+
+// Machine-checked contracts for this package (checked by /verif/govc).
+// Comment-only: no executable code.
+
+package types
+
+// C06: each transaction requires the signature of exactly the party the protocol assigns
+// (table written from the property statement, not from the code).
+//@ func (MsgCreateCertificate).GetSigners   // owner
+//@   ensures len(result) == 1 && result[0] == unbech32(m.Owner)
+//@ func (MsgRevokeCertificate).GetSigners   // owner
+//@   ensures len(result) == 1 && result[0] == unbech32(m.ID.Owner)
+
+//@ property C06 := (MsgCreateCertificate).GetSigners#*, (MsgRevokeCertificate).GetSigners#*
